@@ -196,7 +196,7 @@ fn main() {
                 .iter()
                 .map(|s| json!({"name": s.name, "size": s.size, "exhaustive": s.exhaustive, "chunk": s.chunk, "case_timeout_s": s.case_timeout_s, "what": s.what}))
                 .collect();
-            println!("{}", json!({"prop": prop.id(), "spaces": sp, "rule": prop.rule(), "assumptions": prop.assumptions(), "required_classes": prop.required_classes(cx.tier), "hang_is_violation": prop.hang_is_violation(), "level": prop.level()}));
+            println!("{}", json!({"prop": prop.id(), "spaces": sp, "rule": prop.rule(), "assumptions": prop.assumptions(), "required_classes": prop.required_classes(cx.tier), "hang_is_violation": prop.hang_is_violation(), "level": prop.level(), "fail_budget": prop.fail_budget()}));
         }
         "chunk" => {
             let a = worker::ChunkArgs {
